@@ -25,12 +25,12 @@ type RunResult struct {
 	Discarded    string         `json:"discarded,omitempty"`    // non-empty: run proves nothing (reason)
 	Trace        []string       `json:"trace,omitempty"`        // decoded op / schedule trace
 	Steps        int            `json:"steps"`
-	Evals        int            `json:"evals"` // fault points / cases evaluated inside this run (0 = the run is one case)
-	SimNanos     int64          `json:"sim_nanos"`    // simulated time covered
-	TraceHash    uint64         `json:"trace_hash"`   // hash of the (task,point)/op sequence
-	StateHashes  []uint64       `json:"-"`            // distinct state digests reached
-	NonTrivial   bool           `json:"non_trivial"`  // by the property's stated rule
-	Digest       string         `json:"digest"`       // final state digest for determinism diffs
+	Evals        int            `json:"evals"`       // fault points / cases evaluated inside this run (0 = the run is one case)
+	SimNanos     int64          `json:"sim_nanos"`   // simulated time covered
+	TraceHash    uint64         `json:"trace_hash"`  // hash of the (task,point)/op sequence
+	StateHashes  []uint64       `json:"-"`           // distinct state digests reached
+	NonTrivial   bool           `json:"non_trivial"` // by the property's stated rule
+	Digest       string         `json:"digest"`      // final state digest for determinism diffs
 }
 
 func NewResult() *RunResult {
@@ -41,9 +41,9 @@ func (r *RunResult) Violate(prop, kind string, step int, format string, a ...any
 	r.Violations = append(r.Violations, Violation{Prop: prop, Kind: kind, Step: step, Detail: fmt.Sprintf(format, a...)})
 }
 
-func (r *RunResult) Probe(name string)           { r.Probes[name]++ }
-func (r *RunResult) Fault(name string)           { r.Faults[name]++ }
-func (r *RunResult) Tracef(f string, a ...any)   { r.Trace = append(r.Trace, fmt.Sprintf(f, a...)) }
+func (r *RunResult) Probe(name string)         { r.Probes[name]++ }
+func (r *RunResult) Fault(name string)         { r.Faults[name]++ }
+func (r *RunResult) Tracef(f string, a ...any) { r.Trace = append(r.Trace, fmt.Sprintf(f, a...)) }
 func (r *RunResult) Has(prop string) *Violation {
 	for i := range r.Violations {
 		if r.Violations[i].Prop == prop {
